@@ -18,8 +18,11 @@ pub const MAX_THREADS: usize = 8;
 const NO_TID: usize = usize::MAX;
 const MAX_STALE_ALTS: usize = 3;
 const MAX_PERIOD: usize = 6;
-const LIVELOCK_OPS: u64 = 1500;
-const SPIN_PERIODS: usize = 6;
+const LIVELOCK_OPS: u64 = 3000;
+// A thread is parked as a spinner only after this many identical periods of change-free
+// operations: bounded loops of the code under test re-read one location (a relocatable pointer's
+// distance, a length) hundreds of times, and parking such a thread loses schedules.
+const SPIN_PERIODS: usize = 150;
 
 thread_local! {
     static TID: Cell<usize> = const { Cell::new(NO_TID) };
